@@ -14,6 +14,10 @@
  *   enddef | enddef4 <h_minfree> <v_align> <v_minfree> <r_align> | redef | sync | close
  *   putvar <varid> <hex>             whole fixed-size variable (rank 0 writes, the others take part with zero counts)
  *   putrec <varid> <rec> <hex>       one record of a record variable
+ *   acc <put|get> <varid> <ndims> <start>*nd <count>*nd <stride>*nd|- [<hex>]
+ *                                    blocking collective sub-array / strided access (ncmpi_put_vars_all / ncmpi_get_vars_all,
+ *                                    flexible API); put: rank 0 writes, the others take part with zero counts; get: every
+ *                                    rank reads and answers  acc <err> <hex big-endian>
  *   inq    -> inq <err> <header_size> <header_extent> <recsize> <numrecs|-1> <nvars> <varoffset>*
  *   snap <path>  -> snap 0 <size> <hex of the whole file>     (barrier, then rank 0 reads the file with POSIX calls)
  */
@@ -170,6 +174,32 @@ int main(int argc, char **argv) {
             }
             free(buf);
             fprintf(out, "%s %d\n", op, err);
+        } else if (!strcmp(op, "acc")) {
+            int isput = !strcmp(tok[1], "put");
+            int varid = atoi(tok[2]), nd = atoi(tok[3]), i, havestride; nc_type t;
+            MPI_Offset start[64], count[64], stride[64], n = 1;
+            unsigned char *buf;
+            for (i = 0; i < nd; i++) { start[i] = atoll(tok[4 + i]); count[i] = atoll(tok[4 + nd + i]); n *= count[i]; }
+            havestride = strcmp(tok[4 + 2 * nd], "-") != 0;
+            if (havestride) for (i = 0; i < nd; i++) stride[i] = atoll(tok[4 + 2 * nd + i]);
+            err = ncmpi_inq_vartype(ncid, varid, &t);
+            buf = calloc((size_t)n + 2, 8);
+            if (err == NC_NOERR && isput) {
+                const char *hexs = tok[4 + 2 * nd + (havestride ? nd : 1)];
+                size_t nb = unhex(hexs, buf);
+                be2native(buf, nb, tsize(t));
+                if (rank != 0) { for (i = 0; i < nd; i++) count[i] = 0; n = 0; }
+                err = ncmpi_put_vars_all(ncid, varid, start, count, havestride ? stride : NULL, buf, n, mtype(t));
+                fprintf(out, "acc %d\n", err);
+            } else if (err == NC_NOERR) {
+                err = ncmpi_get_vars_all(ncid, varid, start, count, havestride ? stride : NULL, buf, n, mtype(t));
+                be2native(buf, (size_t)n * tsize(t), tsize(t));      /* the swap is its own inverse */
+                fprintf(out, "acc %d ", err);
+                if (n == 0) fputc('-', out);
+                for (i = 0; i < n * tsize(t); i++) fprintf(out, "%02x", buf[i]);
+                fputc('\n', out);
+            } else fprintf(out, "acc %d\n", err);
+            free(buf);
         } else if (!strcmp(op, "inq")) {
             MPI_Offset hs = -1, he = -1, rs = -1, nr = -1; int nv = 0, i, unlim = -1;
             err = ncmpi_inq_header_size(ncid, &hs);
